@@ -42,7 +42,7 @@ extern "C" {
   extern myth_verif_cb_t g_myth_verif_cb;
 }
 
-#define RUNAWAY 200000
+#define RUNAWAY 20000
 #define CHILD_TIMEOUT 20
 #define MAXLOG (1 << 20)
 
